@@ -13,7 +13,14 @@ Clauses of the statement and where they are monitored
   * "the reported result is the best entry"                                   solve.generation_invariants
   * "the best score never gets worse from one generation to the next"         solve.generation_invariants, update_hof.*
 
-Solver run config (JSON input):
+Hardening (STRENGTHEN_BRIEF H1/H2/H6):
+  * solver built with a user-supplied start circuit and n_pop > 1          population_initialization.start_circuit,
+    (population members independent copies, population scores honest,        solve.start_circuit_invariants (fixed),
+    caller's circuit / target unchanged)                                     solve.start_circuit_honest_seeded
+  * seed VALUES 0, 1, 7 (0 must seed), fresh solvers, shared metric /      solve.reproducible_seed_values
+    compiler / target objects between two solvers
+
+Solver run config (JSON input; optional "start": op list of a start circuit, see build_start; "popcheck": population monitored):
    {"solver": "evo"|"hybrid", "target": name in TARGETS, "ne": emitters (evo only), "compiler": "s"|"dm", "seed": int,
     "n_pop": int, "n_stop": int, "n_hof": int, "sel": bool, "adapt": bool, "k": tournament size}
 "Ordered" is demanded exactly as stated: hof[i].score <= hof[i+1].score as floats (no tolerance).
